@@ -4,16 +4,20 @@
 
     The input is the [configJSON] struct after [json.Unmarshal]: eight Go strings (byte
     strings, a key that is not set is the empty string).  Faithful to the code as it is:
-    - [strconv.ParseUint(s, 16, 0)]: base 16 given explicitly, so no "0x" prefix, no
-      sign, no underscore, the empty string is a syntax error, a value >= 2^64 a range
-      error (both: error class [E_STRCONV]);
+    - [parseHex]: [strings.TrimPrefix(strings.TrimPrefix(s, "0x"), "0X")] (one "0x", then
+      one "0X": "0x0X302" is read as 0x302, "0x0x302" is not) followed by
+      [strconv.ParseUint(s, 16, 0)]: base 16 given explicitly, so no further prefix, no
+      sign, no underscore, the empty string (also what is left of "0x") is a syntax error, a
+      value >= 2^64 a range error (both: error class [E_STRCONV]);
+    - a Version that is not set is 0x300;
     - the version test is made on [uint16(ver)], [uint8(smv)] / [uint8(msmv)] cut silently;
     - [strings.Split(list, ",")] and [val += Map[item]]: a name that is not a key of the
       map adds 0 without an error, a name listed twice is added twice, in uintN arithmetic;
     - the keys of [tools.PolicyControlMap], [tools.HashMaskMap], [tools.SignMaskMap],
       [txt.HashMapping] o [tools.HashAlgMap] (the second site of the name handling);
-    - the fixed fields: Reserved 0xff, Reserved2 8, PolicyHash 00 01 .. 1f for EVERY
-      hash algorithm ("Fixed SHA256 use").
+    - the fixed fields: Reserved 0xff, Reserved2 8, and the placeholder PolicyHash
+      00 01 02 .. for as many bytes as a digest of HashAlg has, at most 32 (SHA1: 00..13 then
+      zeros; SHA256 and SHA384: 00..1f).
     No proofs here. *)
 From CSS Require Import Lib.Base Model.LCP.
 From Coq Require Import String Ascii.
@@ -48,6 +52,19 @@ Definition parse_hex (l : list Z) : option Z :=
          | None => None
          end
   end.
+
+(** [strings.TrimPrefix] *)
+Fixpoint has_prefix (p l : list Z) : bool :=
+  match p, l with
+  | [], _ => true
+  | a :: p', b :: l' => (a =? b) && has_prefix p' l'
+  | _ :: _, [] => false
+  end.
+Definition trim_prefix (p l : list Z) : list Z := if has_prefix p l then skipn (Datatypes.length p) l else l.
+
+(** [parseHex] of config.go *)
+Definition cfg_hex (l : list Z) : option Z :=
+  parse_hex (trim_prefix (bs "0X") (trim_prefix (bs "0x") l)).
 
 (** ** [strings.Split(l, ",")]: never empty, [""] for the empty string *)
 Definition COMMA : Z := 44.
@@ -96,16 +113,22 @@ Definition cfg_ptype (n : list Z) : option Z :=
   else if zlist_eqb n (bs "List") then Some 0
   else None.
 
-(* if len(str) > 0 { ParseUint } else { default } *)
+(* if len(str) > 0 { parseHex } else { default } *)
 Definition opt_hex (dflt : Z) (l : list Z) : option Z :=
-  match l with [] => Some dflt | _ => parse_hex l end.
+  match l with [] => Some dflt | _ => cfg_hex l end.
+
+(* txt.HashMapping[config.HashAlg].Size() for the algorithms that get this far *)
+Definition cfg_digest_size (alg : Z) : nat :=
+  if alg =? AlgSHA1 then 20%nat else if alg =? AlgSHA256 then 32%nat else 48%nat.
+(* for i := 0; i < len(hash) && i < size; i++ { hash[i] = byte(i) } *)
+Definition cfg_hash (alg : Z) : list Z := fix_len 32 (seqZ 0 (cfg_digest_size alg)).
 
 Record config : Type := MkCfg {
   c_version : list Z; c_hashalg : list Z; c_ptype : list Z; c_sinit : list Z;
   c_maxsinit : list Z; c_pc : list Z; c_hmask : list Z; c_smask : list Z }.
 
 Definition load_config (c : config) : outcome policy2 :=
-  match parse_hex (c_version c) with
+  match opt_hex LCPPolicyVersion3 (c_version c) with
   | None => Err E_STRCONV
   | Some ver =>
     let v16 := wrap16 ver in
@@ -127,7 +150,7 @@ Definition load_config (c : config) : outcome policy2 :=
                      (wrap8 msmv) 255
                      (sum_names wrap16 hmask_map (split_comma (c_hmask c)))
                      (sum_names wrap32 smask_map (split_comma (c_smask c)))
-                     8 (seqZ 0 32))
+                     8 (cfg_hash alg))
           end
         end
       end
